@@ -327,6 +327,8 @@ type c03World struct {
 	shiftDims   map[int]bool
 	shiftGroups map[int]bool
 	shiftAt     map[int]bool
+	// the feature gate ElasticQuotaGuaranteeUsage is on in this case
+	gu bool
 }
 
 // shifted: the mask of an assigned pod moved (see shiftDims).
@@ -1037,6 +1039,10 @@ func (w *c03World) dump() {
 		u, n := c03FromList(s.Used), c03FromList(s.NonPreemptibleUsed)
 		su, sn := c03FromList(s.SelfUsed), c03FromList(s.SelfNonPreemptibleUsed)
 		w.h.Obs("q %d %s %s %s %s", id, vInts(u.v[:]), vInts(n.v[:]), vInts(su.v[:]), vInts(sn.v[:]))
+		if w.gu && s.AllowLentResource {
+			// hypothesis of gated_lent_flip_dropped / of `gate 1` in the model: under the gate the manager never holds allow-lent = true
+			w.h.Fail("C03:gate-assumption", "feature gate ElasticQuotaGuaranteeUsage on, but group %d is held with allow-lent = true", id)
+		}
 		// what admission relies on: the reported used of a group is the sum of the (masked) requests of the pods
 		// currently assigned in its subtree - whatever happened before (every stream: roll-backs, deletions,
 		// re-parenting, tree resets, lowered max, unadmitted reserves)
@@ -1137,7 +1143,7 @@ func (w *c03World) attempt(p *c03Pod) bool {
 				if !full.has[d] || !limMasked[g].has[d] {
 					w.h.Fail("C03:missing-dimension", "runtime of group %d lacks declared dim %d", g, d)
 				} else if full.v[d] > q.max.v[d] {
-					w.h.Fail("C03:runtime-above-max", "group %d dim %d runtime %d > max %d (children's min sums webhook-legal: %v)", g, d, full.v[d], q.max.v[d], w.minSumsLegal())
+					w.h.Fail("C03:runtime-above-max", "group %d dim %d runtime %d > max %d (stream %s; children's min sums webhook-legal: %v)", g, d, full.v[d], q.max.v[d], w.stream, w.minSumsLegal())
 				}
 			}
 		}
@@ -1291,7 +1297,7 @@ func c03Case(t *testing.T, h *vHarness, idx int, steps int) {
 	var lvl klog.Level
 	_ = lvl.Set("0")
 	gp := suit.createPlugin(t).(*Plugin)
-	w := &c03World{t: t, h: h, gp: gp, cfgRT: idx&1 == 1, cfgCP: idx&2 == 2, quotas: map[int]*c03Quota{}, pods: map[int]*c03Pod{}}
+	w := &c03World{t: t, h: h, gp: gp, cfgRT: idx&1 == 1, cfgCP: idx&2 == 2, quotas: map[int]*c03Quota{}, pods: map[int]*c03Pod{}, gu: gu}
 	gp.pluginArgs.EnableRuntimeQuota = w.cfgRT
 	gp.pluginArgs.EnableCheckParentQuota = w.cfgCP
 	stream := "main"
@@ -1648,7 +1654,7 @@ func c03GuaranteeCase(t *testing.T, h *vHarness, idx int) {
 	_ = lvl.Set("0")
 	gp := suit.createPlugin(t).(*Plugin)
 	w := &c03World{t: t, h: h, gp: gp, cfgRT: (idx>>1)&1 == 1 && c03GateRT(), cfgCP: idx&1 == 1, quotas: map[int]*c03Quota{}, pods: map[int]*c03Pod{},
-		stream: "guarantee", closedLoop: true}
+		stream: "guarantee", closedLoop: true, gu: true}
 	gp.pluginArgs.EnableRuntimeQuota = w.cfgRT
 	gp.pluginArgs.EnableCheckParentQuota = w.cfgCP
 	h.Tag("stream:guarantee")
